@@ -233,8 +233,28 @@ func (x *ex) equal(want, got proto.Message, oracle, sigPrefix, what string) bool
 		// receiving objects recycled "as the snapshot stream readers do", i.e. SnapshotChunk. The
 		// generated Command.ResetVT keeps `RangeEnd[:0]`, so a recycled Command that once had
 		// range_end decodes a message without it as present-but-empty: latent, recorded in DESIGN.md.
-		x.out.Probe("pooled-command-decode-differs(observed,not-asserted):" + p[strings.LastIndex(p, ".")+1:])
-		return true
+		// The relaxation is exactly that class: with present-but-empty range_end read as absent on both
+		// sides the recycled object must equal the message; any other stale field (a batch entry that
+		// keeps the value or revisions of the message the object held before, say) is a failure.
+		if strings.HasSuffix(p, "range_end:presence") {
+			nw, ng := proto.Clone(want), proto.Clone(got)
+			for _, c := range []proto.Message{nw, ng} {
+				if cc, ok := c.(*regattapb.Command); ok {
+					walkCommands(cc, func(c *regattapb.Command) {
+						if c.RangeEnd != nil && len(c.RangeEnd) == 0 {
+							c.RangeEnd = nil
+						}
+					})
+				}
+			}
+			if proto.Equal(nw, ng) {
+				x.out.Probe("pooled-command-decode-differs(observed,not-asserted):range_end:presence")
+				return true
+			}
+			want, got = nw, ng
+			p = diffPath(want.ProtoReflect(), got.ProtoReflect())
+			sp = p
+		}
 	}
 	if strings.HasPrefix(sigPrefix, "pooled:") {
 		// one class per leaking field, wherever the recycled (nested) object sits and whichever decode flavour was used
